@@ -156,7 +156,7 @@ def run_shard(item, stats):
     km = core.known_matcher(ID, globals().get("known_match"))
     if item["what"] == "words":
         words = item.get("words") or range(*item["range"])
-        core.run_cases(word_cases(words, item["part"], item["parts"]), check, stats, km)
+        core.run_cases(word_cases(words, item["part"], item["parts"]), check, stats, km, distinct=True)
         stats.exhaustive_parts.append(item["label"] + " x 6 accu x 6 operand values")
     else:
         core.hyp_search(program_case(), check, stats, item["n"], item["seed"], km)
